@@ -215,7 +215,7 @@ MonApply(m, e) ==
                                                           (CHOOSE t \in SeqRange(e.toks) : t.j = j).v]]),
                             !.unread = Put(@, e.conn, At(m.unread, e.conn, {}) \cup {f}),
                             !.dirty = @ \cup {e.conn}]
-    [] e.ev = "answerhead" -> [m EXCEPT !.dirty = @ \cup {e.conn}]
+    [] e.ev \in {"answerhead", "answerauto"} -> [m EXCEPT !.dirty = @ \cup {e.conn}]
     [] e.ev = "bclose" ->
          \* the node dropped the connection: what it had not answered dies with it
          LET dying == SeqRange(At(m.pend, e.conn, <<>>)) IN
